@@ -1,6 +1,511 @@
-//! C14 — stub: correspondence harness not built yet.
+//! C14 — aggregations equal a direct computation and do not depend on partitioning.
+//!
+//! Real code: `Searcher::search(query, AggregationCollector)` / `DistributedAggregationCollector`
+//! + `merge_fruits` + postcard round trips + `into_final_result`, on generated corpora indexed
+//! under several segmentations and as separate indexes.
+//! Oracles: (a) a direct evaluator in this file (`spec_eval`, exact integer arithmetic on the
+//! model-coded documents) — also compared verbatim with the Lean `evalAgg`; (b) partition
+//! independence of the final result; (c) limits yield `Err`, never a shortened result.
+//! Parts: c14.rs (types, generators, run), c14_spec.rs (direct evaluator), c14_real.rs
+//! (canonicalisation of real results and comparison).
+use crate::rng::Rng;
 use crate::Ctx;
+use serde::{Deserialize, Serialize};
+use serde_json::{json, Value};
+use std::net::Ipv6Addr;
+
+#[path = "c14_spec.rs"]
+mod spec;
+#[path = "c14_real.rs"]
+mod real;
+#[path = "c14_run.rs"]
+mod runner;
+
+pub const NF: usize = 12;
+
+#[derive(Clone, Copy, PartialEq, Eq, Debug, PartialOrd, Ord, Serialize, Deserialize)]
+pub enum Fd { U, I, Fl, D, B, Ip, Kw, Cat, JsN, JsS, Uid, Sel }
+
+pub const ALL_FD: [Fd; NF] = [Fd::U, Fd::I, Fd::Fl, Fd::D, Fd::B, Fd::Ip, Fd::Kw, Fd::Cat, Fd::JsN, Fd::JsS, Fd::Uid, Fd::Sel];
+
+impl Fd {
+    pub fn id(self) -> usize { self as usize }
+    pub fn name(self) -> &'static str {
+        ["u", "i", "f", "d", "b", "ip", "kw", "cat", "js.n", "js.s", "uid", "sel"][self.id()]
+    }
+    /// model integer = real value * scale (f64 values are multiples of 1/4; dates are in ms)
+    pub fn scale(self) -> i64 { if self == Fd::Fl { 4 } else { 1 } }
+    /// real metric value (as the collectors see it, f64) of a model code
+    pub fn metric_factor(self) -> f64 {
+        match self { Fd::Fl => 0.25, Fd::D => 1_000_000.0, _ => 1.0 }
+    }
+    pub fn is_str(self) -> bool { matches!(self, Fd::Kw | Fd::Cat | Fd::JsS) }
+    pub fn is_numeric(self) -> bool { matches!(self, Fd::U | Fd::I | Fd::Fl | Fd::JsN | Fd::Uid | Fd::Sel) }
+}
+
+/// a document: for every field the list of its values as model codes
+pub type MDoc = Vec<Vec<i64>>;
+
+pub fn kw_universe() -> Vec<String> {
+    let mut v: Vec<String> = vec!["A1", "a", "b", "c", "é", "日本", "zzz_missing"].into_iter().map(String::from).collect();
+    for i in 0..200 { v.push(format!("k{i:03}")); }
+    v.sort();
+    v
+}
+pub fn cat_universe() -> Vec<String> {
+    let mut v: Vec<String> = ["alpha", "beta", "delta", "eps", "gamma", "zzz_missing"].iter().map(|s| s.to_string()).collect();
+    v.sort();
+    v
+}
+pub fn ip_universe() -> Vec<Ipv6Addr> {
+    let mut v: Vec<Ipv6Addr> = ["10.0.0.1", "9.0.0.1", "192.168.1.1", "127.0.0.1", "255.255.255.255", "0.0.0.1"]
+        .iter().map(|s| s.parse::<std::net::Ipv4Addr>().unwrap().to_ipv6_mapped()).collect();
+    for s in ["::1", "2001:db8::1", "2001:db8::2", "fe80::1", "ffff::"] { v.push(s.parse().unwrap()); }
+    v.sort_by_key(|a| u128::from(*a));
+    v
+}
+pub fn universe(f: Fd) -> Vec<String> {
+    match f {
+        Fd::Kw => kw_universe(),
+        Fd::Cat | Fd::JsS => cat_universe(),
+        Fd::Ip => ip_universe().iter().map(|ip| match ip.to_ipv4_mapped() { Some(v4) => v4.to_string(), None => ip.to_string() }).collect(),
+        _ => vec![],
+    }
+}
+/// code of the reserved string used as the `missing` key of string terms aggregations
+pub fn missing_code(f: Fd) -> i64 {
+    universe(f).iter().position(|s| s == "zzz_missing").unwrap() as i64
+}
+
+pub fn fmt_date_ms(ms: i64) -> String {
+    let dt = time::OffsetDateTime::from_unix_timestamp_nanos(ms as i128 * 1_000_000).unwrap();
+    dt.format(&time::format_description::well_known::Rfc3339).unwrap()
+}
+pub fn parse_date_ms(s: &str) -> Option<i64> {
+    let dt = time::OffsetDateTime::parse(s, &time::format_description::well_known::Rfc3339).ok()?;
+    let ns = dt.unix_timestamp_nanos();
+    if ns % 1_000_000 != 0 { return None; }
+    Some((ns / 1_000_000) as i64)
+}
+
+pub fn doc_to_json(d: &MDoc) -> Value {
+    let mut m = serde_json::Map::new();
+    let mut js = serde_json::Map::new();
+    let kw = kw_universe();
+    let cat = cat_universe();
+    let ips = ip_universe();
+    for f in ALL_FD {
+        let vs = &d[f.id()];
+        if vs.is_empty() { continue; }
+        let arr: Vec<Value> = vs.iter().map(|&c| match f {
+            Fd::U | Fd::Uid | Fd::Sel => json!(c as u64),
+            Fd::I | Fd::JsN => json!(c),
+            Fd::Fl => json!(c as f64 / 4.0),
+            Fd::D => json!(fmt_date_ms(c)),
+            Fd::B => json!(c != 0),
+            Fd::Ip => json!(ips[c as usize].to_string()),
+            Fd::Kw => json!(kw[c as usize]),
+            Fd::Cat | Fd::JsS => json!(cat[c as usize]),
+        }).collect();
+        match f {
+            Fd::JsN => { js.insert("n".into(), Value::Array(arr)); }
+            Fd::JsS => { js.insert("s".into(), Value::Array(arr)); }
+            _ => { m.insert(f.name().into(), Value::Array(arr)); }
+        }
+    }
+    if !js.is_empty() { m.insert("js".into(), Value::Object(js)); }
+    Value::Object(m)
+}
+
+/// Order-preserving dense ranks of the values of every field (terms keys are sent to the Lean
+/// model as ranks under field id `f + NF`, so that its key enumeration stays small).
+pub struct Ranks(pub Vec<Vec<i64>>);
+impl Ranks {
+    pub fn new(docs: &[MDoc], nodes: &[Node]) -> Ranks {
+        let mut sets: Vec<std::collections::BTreeSet<i64>> = vec![Default::default(); NF];
+        for d in docs { for f in 0..NF { sets[f].extend(d[f].iter().cloned()); } }
+        fn walk(nodes: &[Node], sets: &mut Vec<std::collections::BTreeSet<i64>>) {
+            for n in nodes {
+                if let Agg::Terms { field, missing: Some(m), .. } = &n.agg { sets[field.id()].insert(*m); }
+                walk(&n.subs, sets);
+            }
+        }
+        walk(nodes, &mut sets);
+        Ranks(sets.into_iter().map(|s| s.into_iter().collect()).collect())
+    }
+    pub fn rank(&self, f: Fd, c: i64) -> i64 { self.0[f.id()].binary_search(&c).map(|p| p as i64).unwrap_or(-1) }
+}
+
+/// Lean wire format of a list of parts
+pub fn parts_to_lean(docs: &[MDoc], parts: &[Vec<usize>], ranks: &Ranks) -> String {
+    let enc_doc = |d: &MDoc| -> String {
+        let mut items: Vec<String> = (0..NF).filter(|&f| !d[f].is_empty())
+            .map(|f| format!("{}={}", f, d[f].iter().map(|v| v.to_string()).collect::<Vec<_>>().join(","))).collect();
+        for f in ALL_FD {
+            if !d[f.id()].is_empty() {
+                items.push(format!("{}={}", f.id() + NF, d[f.id()].iter().map(|v| ranks.rank(f, *v).to_string()).collect::<Vec<_>>().join(",")));
+            }
+        }
+        if items.is_empty() { "e".into() } else { items.join("/") }
+    };
+    parts.iter().map(|p| if p.is_empty() { "-".to_string() } else { p.iter().map(|&i| enc_doc(&docs[i])).collect::<Vec<_>>().join(";") })
+        .collect::<Vec<_>>().join("|")
+}
+
+// ------------------------------------------------------------------------------------------
+// requests
+// ------------------------------------------------------------------------------------------
+
+#[derive(Clone, Copy, PartialEq, Eq, Debug, Serialize, Deserialize)]
+pub enum MK { Count, Sum, Min, Max, Avg, Stats, ExtStats, Percentiles, Cardinality, TopHits }
+
+#[derive(Clone, PartialEq, Debug, Serialize, Deserialize)]
+pub enum TOrd { CountDesc, CountAsc, KeyAsc, KeyDesc }
+
+#[derive(Clone, PartialEq, Debug, Serialize, Deserialize)]
+pub enum Agg {
+    /// `missing` in model units of the field; `desc`/`k` only for top_hits
+    Metric { kind: MK, field: Fd, missing: Option<i64>, desc: bool, k: usize },
+    Terms { field: Fd, size: Option<u32>, seg: Option<u32>, mdc: Option<u64>, order: Option<TOrd>, missing: Option<i64> },
+    /// interval / offset / bounds in model units of the field (ms for dates)
+    Hist { field: Fd, interval: i64, offset: Option<i64>, mdc: Option<u64>, hard: Option<(i64, i64)>, ext: Option<(i64, i64)>, date_hist: bool },
+    Range { field: Fd, ranges: Vec<(Option<i64>, Option<i64>, Option<String>)> },
+    Filter { field: Fd, code: i64 },
+}
+
+#[derive(Clone, PartialEq, Debug, Serialize, Deserialize)]
+pub struct Node { pub name: String, pub agg: Agg, pub subs: Vec<Node> }
+
+fn real_num(f: Fd, c: i64) -> Value {
+    if f.scale() == 1 { json!(c) } else { json!(c as f64 / f.scale() as f64) }
+}
+
+fn ms_interval(ms: i64) -> String {
+    if ms % 86_400_000 == 0 { format!("{}d", ms / 86_400_000) }
+    else if ms % 3_600_000 == 0 { format!("{}h", ms / 3_600_000) }
+    else if ms % 60_000 == 0 { format!("{}m", ms / 60_000) }
+    else if ms % 1000 == 0 { format!("{}s", ms / 1000) }
+    else { format!("{}ms", ms) }
+}
+
+pub fn nodes_to_json(nodes: &[Node]) -> Value {
+    let mut m = serde_json::Map::new();
+    for n in nodes {
+        let mut o = serde_json::Map::new();
+        match &n.agg {
+            Agg::Metric { kind, field, missing, desc, k } => {
+                let mut p = serde_json::Map::new();
+                let name = match kind {
+                    MK::Count => "value_count", MK::Sum => "sum", MK::Min => "min", MK::Max => "max", MK::Avg => "avg",
+                    MK::Stats => "stats", MK::ExtStats => "extended_stats", MK::Percentiles => "percentiles",
+                    MK::Cardinality => "cardinality", MK::TopHits => "top_hits",
+                };
+                if *kind == MK::TopHits {
+                    p.insert("sort".into(), json!([{ field.name(): if *desc { "desc" } else { "asc" } }]));
+                    p.insert("size".into(), json!(k));
+                    p.insert("docvalue_fields".into(), json!([field.name()]));
+                } else {
+                    p.insert("field".into(), json!(field.name()));
+                    if let Some(mv) = missing { p.insert("missing".into(), real_num(*field, *mv)); }
+                }
+                o.insert(name.into(), Value::Object(p));
+            }
+            Agg::Terms { field, size, seg, mdc, order, missing } => {
+                let mut p = serde_json::Map::new();
+                p.insert("field".into(), json!(field.name()));
+                if let Some(s) = size { p.insert("size".into(), json!(s)); }
+                if let Some(s) = seg { p.insert("segment_size".into(), json!(s)); }
+                if let Some(s) = mdc { p.insert("min_doc_count".into(), json!(s)); }
+                if let Some(o) = order {
+                    p.insert("order".into(), match o {
+                        TOrd::CountDesc => json!({"_count": "desc"}), TOrd::CountAsc => json!({"_count": "asc"}),
+                        TOrd::KeyAsc => json!({"_key": "asc"}), TOrd::KeyDesc => json!({"_key": "desc"}),
+                    });
+                }
+                if let Some(mc) = missing {
+                    p.insert("missing".into(), if field.is_str() { json!(universe(*field)[*mc as usize]) } else { real_num(*field, *mc) });
+                }
+                p.insert("show_term_doc_count_error".into(), json!(true));
+                o.insert("terms".into(), Value::Object(p));
+            }
+            Agg::Hist { field, interval, offset, mdc, hard, ext, date_hist } => {
+                let mut p = serde_json::Map::new();
+                p.insert("field".into(), json!(field.name()));
+                if *date_hist {
+                    p.insert("fixed_interval".into(), json!(ms_interval(*interval)));
+                    if let Some(off) = offset {
+                        p.insert("offset".into(), json!(format!("{}{}", if *off < 0 { "-" } else { "+" }, ms_interval(off.abs()))));
+                    }
+                } else {
+                    p.insert("interval".into(), real_num(*field, *interval));
+                    if let Some(off) = offset { p.insert("offset".into(), real_num(*field, *off)); }
+                }
+                if let Some(s) = mdc { p.insert("min_doc_count".into(), json!(s)); }
+                if let Some((a, b)) = hard { p.insert("hard_bounds".into(), json!({"min": real_num(*field, *a), "max": real_num(*field, *b)})); }
+                if let Some((a, b)) = ext { p.insert("extended_bounds".into(), json!({"min": real_num(*field, *a), "max": real_num(*field, *b)})); }
+                o.insert(if *date_hist { "date_histogram" } else { "histogram" }.into(), Value::Object(p));
+            }
+            Agg::Range { field, ranges } => {
+                let rs: Vec<Value> = ranges.iter().map(|(a, b, k)| {
+                    let mut r = serde_json::Map::new();
+                    if let Some(a) = a { r.insert("from".into(), real_num(*field, *a)); }
+                    if let Some(b) = b { r.insert("to".into(), real_num(*field, *b)); }
+                    if let Some(k) = k { r.insert("key".into(), json!(k)); }
+                    Value::Object(r)
+                }).collect();
+                o.insert("range".into(), json!({"field": field.name(), "ranges": rs}));
+            }
+            Agg::Filter { field, code } => {
+                let q = if field.is_str() { format!("{}:{}", field.name(), universe(*field)[*code as usize]) } else { format!("{}:{}", field.name(), code) };
+                o.insert("filter".into(), json!(q));
+            }
+        }
+        if !n.subs.is_empty() { o.insert("aggs".into(), nodes_to_json(&n.subs)); }
+        m.insert(n.name.clone(), Value::Object(o));
+    }
+    Value::Object(m)
+}
+
+fn opt(v: Option<i64>) -> String { v.map(|x| x.to_string()).unwrap_or("_".into()) }
+
+/// sorted distinct cut points of a range request (model units), as the code normalises them;
+/// for unsigned fields a bound `<= 0` is the open end
+pub fn range_cuts(field: Fd, ranges: &[(Option<i64>, Option<i64>, Option<String>)]) -> Vec<i64> {
+    let mut cuts: Vec<i64> = vec![];
+    for (a, b, _) in ranges {
+        if let Some(a) = a { if !(field == Fd::U && *a <= 0) { cuts.push(*a); } }
+        if let Some(b) = b { cuts.push(*b); }
+    }
+    cuts.sort();
+    cuts.dedup();
+    cuts
+}
+
+pub fn terms_defaults(size: Option<u32>, seg: Option<u32>, mdc: Option<u64>, order: &Option<TOrd>) -> (usize, usize, u64, TOrd) {
+    let size = size.unwrap_or(10);
+    let seg = seg.unwrap_or(size * 10).max(size);
+    (size as usize, seg as usize, mdc.unwrap_or(1), order.clone().unwrap_or(TOrd::CountDesc))
+}
+
+/// Lean wire format of a request (unmodelled metric kinds become `N`)
+pub fn nodes_to_lean(nodes: &[Node], counts_only: bool, ranks: &Ranks) -> String {
+    fn one(n: &Node, counts_only: bool, ranks: &Ranks) -> String {
+        let sub = nodes_to_lean(&n.subs, counts_only, ranks);
+        match &n.agg {
+            Agg::Metric { kind, field, missing, .. } => match kind {
+                MK::Percentiles | MK::Cardinality | MK::TopHits => "N".into(),
+                _ if counts_only || field.is_str() => "N".into(),
+                _ => format!("M,{},{}", field.id(), opt(*missing)),
+            },
+            Agg::Terms { field, size, seg, mdc, order, missing } => {
+                let (size, seg, mdc, order) = terms_defaults(*size, *seg, *mdc, order);
+                let o = match order { TOrd::CountDesc => "cd", TOrd::CountAsc => "ca", TOrd::KeyAsc => "ka", TOrd::KeyDesc => "kd" };
+                format!("T,{},{},{},{},{},{},{}", field.id() + NF, opt(missing.map(|m| ranks.rank(*field, m))), size, seg, mdc, o, sub)
+            }
+            Agg::Hist { field, interval, offset, mdc, hard, ext, .. } => format!(
+                "H,{},{},{},{},{},{},{},{},{}", field.id(), interval, offset.unwrap_or(0), mdc.unwrap_or(0),
+                opt(hard.map(|h| h.0)), opt(hard.map(|h| h.1)), opt(ext.map(|h| h.0)), opt(ext.map(|h| h.1)), sub),
+            Agg::Range { field, ranges } => {
+                let cuts = range_cuts(*field, ranges);
+                let mut s = format!("R,{},{}", field.id(), cuts.len());
+                for c in &cuts { s.push_str(&format!(",{c}")); }
+                format!("{s},{sub}")
+            }
+            Agg::Filter { field, code } => format!("F,{},{},{}", field.id(), code, sub),
+        }
+    }
+    match nodes.len() {
+        0 => "N".into(),
+        1 => one(&nodes[0], counts_only, ranks),
+        _ => format!("B,{},{}", one(&nodes[0], counts_only, ranks), nodes_to_lean(&nodes[1..], counts_only, ranks)),
+    }
+}
+
+// ------------------------------------------------------------------------------------------
+// generators
+// ------------------------------------------------------------------------------------------
+
+pub struct Profile { pub n: usize, pub kw_card: usize, pub multi: u64, pub missing: u64 }
+
+pub fn gen_corpus(rng: &mut Rng) -> (Vec<MDoc>, Profile) {
+    let n = match rng.below(10) { 0 => 0, 1 => 1, 2 => 2, 3 | 4 => 5 + rng.usize_below(10), 5 | 6 | 7 => 20 + rng.usize_below(40), 8 => 128 + rng.usize_below(3), _ => 250 + rng.usize_below(100) };
+    let kw_card = *rng.pick(&[3usize, 5, 12, 40, 200]);
+    let multi = *rng.pick(&[0u64, 1, 3, 6]);      // of 10: probability of a multi-valued field
+    let missing = *rng.pick(&[0u64, 1, 3, 7]);    // of 10: probability that a field is absent
+    let base_ms: i64 = 1_600_000_000_000;
+    let nip = ip_universe().len() as u64;
+    let mut docs = vec![];
+    for idx in 0..n {
+        let mut d: MDoc = vec![vec![]; NF];
+        for f in ALL_FD {
+            if f == Fd::Uid { d[f.id()] = vec![idx as i64]; continue; }
+            if f == Fd::Sel { d[f.id()] = vec![rng.below(3) as i64]; continue; }
+            if rng.chance(missing, 10) { continue; }
+            let k = if rng.chance(multi, 10) { 2 + rng.usize_below(3) } else { 1 };
+            for _ in 0..k {
+                let v: i64 = match f {
+                    Fd::U => match rng.below(4) { 0 => rng.below(5) as i64 * 10, 1 => rng.below(41) as i64, 2 => 9 + rng.below(3) as i64, _ => rng.below(200) as i64 },
+                    Fd::I => match rng.below(3) { 0 => (rng.below(9) as i64 - 4) * 10, 1 => rng.below(61) as i64 - 30, _ => -(rng.below(3) as i64) - 9 },
+                    Fd::Fl => rng.below(81) as i64 - 40,                       // quarters: -10.0 ..= 10.0
+                    Fd::D => base_ms + match rng.below(3) { 0 => rng.below(6) as i64 * 60_000, 1 => rng.below(400) as i64 * 1000, _ => rng.below(200_000) as i64 * 500 - 3_600_000 },
+                    Fd::B => rng.below(2) as i64,
+                    Fd::Ip => rng.below(nip) as i64,
+                    Fd::Kw => { let c = if rng.chance(1, 2) { rng.usize_below(kw_card.min(4)) } else { rng.usize_below(kw_card) }; kw_code(c) }
+                    Fd::Cat | Fd::JsS => rng.below(5) as i64,
+                    Fd::JsN => rng.below(21) as i64 - 5,
+                    _ => 0,
+                };
+                d[f.id()].push(v);
+            }
+        }
+        docs.push(d);
+    }
+    (docs, Profile { n, kw_card, multi, missing })
+}
+
+/// i-th usable keyword (skips the reserved missing key)
+fn kw_code(i: usize) -> i64 {
+    let u = kw_universe();
+    let usable: Vec<usize> = (0..u.len()).filter(|&j| u[j] != "zzz_missing").collect();
+    usable[i % usable.len()] as i64
+}
+
+fn gen_metric(rng: &mut Rng) -> Agg {
+    let kind = *rng.pick(&[MK::Count, MK::Sum, MK::Min, MK::Max, MK::Avg, MK::Stats, MK::Stats, MK::ExtStats, MK::Percentiles, MK::Cardinality, MK::TopHits]);
+    let field = match kind {
+        MK::TopHits => Fd::Uid,
+        MK::Cardinality => *rng.pick(&[Fd::Kw, Fd::Cat, Fd::U, Fd::I, Fd::JsN]),
+        MK::Percentiles => *rng.pick(&[Fd::U, Fd::Fl, Fd::I, Fd::JsN]),
+        MK::Count => *rng.pick(&[Fd::U, Fd::I, Fd::Fl, Fd::Kw, Fd::JsN, Fd::D]),
+        MK::Min | MK::Max => *rng.pick(&[Fd::U, Fd::I, Fd::Fl, Fd::JsN, Fd::D]),
+        _ => *rng.pick(&[Fd::U, Fd::I, Fd::Fl, Fd::JsN]),
+    };
+    let missing = if field.is_numeric() && field != Fd::Uid && !matches!(kind, MK::Cardinality | MK::TopHits) && rng.chance(1, 4) {
+        Some(match field { Fd::U => rng.below(50) as i64, Fd::Fl => rng.below(41) as i64 - 20, _ => rng.below(21) as i64 - 10 })
+    } else { None };
+    Agg::Metric { kind, field, missing, desc: rng.chance(1, 2), k: 1 + rng.usize_below(4) }
+}
+
+fn gen_bucket(rng: &mut Rng, depth: usize) -> Agg {
+    match rng.below(10) {
+        0..=3 => {
+            let field = *rng.pick(&[Fd::Kw, Fd::Kw, Fd::Cat, Fd::U, Fd::I, Fd::B, Fd::Ip, Fd::D, Fd::JsS, Fd::JsN, Fd::Fl]);
+            let size = match rng.below(4) { 0 => None, 1 => Some(1 + rng.below(3) as u32), 2 => Some(5), _ => Some(300) };
+            let seg = if depth == 0 && rng.chance(1, 5) { Some(1 + rng.below(6) as u32) } else { None };
+            let mdc = match rng.below(5) { 0 => Some(2), 1 => Some(1), 2 if field.is_str() && depth == 0 => Some(0), _ => None };
+            let order = match rng.below(6) { 0 => None, 1 => Some(TOrd::CountDesc), 2 => Some(TOrd::CountAsc), 3 | 4 => Some(TOrd::KeyAsc), _ => Some(TOrd::KeyDesc) };
+            let missing = if rng.chance(1, 4) {
+                if field.is_str() { Some(missing_code(field)) }
+                else if matches!(field, Fd::U | Fd::JsN) { Some(rng.below(30) as i64) }
+                else if field == Fd::I { Some(rng.below(21) as i64 - 10) }
+                else { None }
+            } else { None };
+            Agg::Terms { field, size, seg, mdc, order, missing }
+        }
+        4..=6 => {
+            let field = *rng.pick(&[Fd::U, Fd::I, Fd::Fl, Fd::JsN, Fd::D, Fd::D]);
+            let date_hist = field == Fd::D && rng.chance(2, 3);
+            let interval = if field == Fd::D { *rng.pick(&[1000i64, 30_000, 60_000, 3_600_000, 86_400_000, 2000]) }
+                else if field == Fd::Fl { *rng.pick(&[1i64, 2, 4, 10, 20]) } else { *rng.pick(&[1i64, 2, 5, 10, 25]) };
+            let offset = if rng.chance(1, 3) {
+                let o = rng.below(interval as u64 * 2 + 1) as i64 - interval;
+                if field == Fd::D { Some((o / 500) * 500) } else { Some(o) }
+            } else { None };
+            let (lo, hi) = match field { Fd::U => (0i64, 200i64), Fd::D => (1_600_000_000_000 - 3_600_000, 1_600_000_000_000 + 100_000_000), Fd::Fl => (-40, 40), _ => (-30, 30) };
+            let span = hi - lo;
+            let pick_bounds = |rng: &mut Rng, wide: bool| -> (i64, i64) {
+                let a = lo + rng.below(span as u64 + 1) as i64 - if wide { span / 4 } else { 0 };
+                let b = a + rng.below((span / 2) as u64 + 1) as i64;
+                (a, b)
+            };
+            let hard = if rng.chance(1, 4) { Some(pick_bounds(rng, false)) } else { None };
+            let mdc = match rng.below(4) { 0 => Some(1), 1 => Some(2), 2 => Some(0), _ => None };
+            let mut ext = if mdc.unwrap_or(0) == 0 && rng.chance(1, 3) { Some(pick_bounds(rng, true)) } else { None };
+            if let (Some(h), Some(e)) = (hard, ext) {
+                // the request is only valid when the extended bounds lie inside the hard bounds
+                let e2 = (e.0.max(h.0), e.1.min(h.1));
+                ext = if e2.0 <= e2.1 { Some(e2) } else { None };
+            }
+            // keep the number of filled buckets moderate
+            let width = match (ext, hard) { (Some(e), _) => e.1 - e.0, _ => span };
+            let interval = if width / interval > 2000 { (width / 500).max(interval) } else { interval };
+            // date keys are computed in f64 nanoseconds: only whole seconds stay exact
+            let interval = if field == Fd::D { if date_hist { round_date_interval(interval.max(1000)) } else { (interval.max(1000) / 1000) * 1000 } } else { interval };
+            Agg::Hist { field, interval, offset: offset.map(|o| o % interval), mdc, hard, ext, date_hist }
+        }
+        7 | 8 => {
+            let field = *rng.pick(&[Fd::U, Fd::I, Fd::Fl, Fd::JsN]);
+            let (lo, hi) = match field { Fd::U => (1i64, 60i64), Fd::Fl => (-40, 40), _ => (-30, 30) };
+            let mut pts: Vec<i64> = (0..2 + rng.usize_below(5)).map(|_| lo + rng.below((hi - lo + 1) as u64) as i64).collect();
+            pts.sort();
+            pts.dedup();
+            let mut ranges = vec![];
+            if rng.chance(1, 2) { ranges.push((None, Some(pts[0]), None)); }
+            for w in pts.windows(2) {
+                if rng.chance(3, 4) { ranges.push((Some(w[0]), Some(w[1]), if rng.chance(1, 4) { Some(format!("r{}", w[0])) } else { None })); }
+            }
+            if rng.chance(1, 2) || ranges.is_empty() { ranges.push((Some(*pts.last().unwrap()), None, None)); }
+            rng.shuffle(&mut ranges);
+            Agg::Range { field, ranges }
+        }
+        _ => {
+            if rng.chance(1, 2) { Agg::Filter { field: Fd::Sel, code: rng.below(4) as i64 } }
+            else { Agg::Filter { field: Fd::Cat, code: rng.below(5) as i64 } }
+        }
+    }
+}
+
+fn round_date_interval(ms: i64) -> i64 {
+    for unit in [86_400_000i64, 3_600_000, 60_000, 1000] { if ms >= unit { return (ms / unit) * unit; } }
+    1000
+}
+
+pub fn gen_nodes(rng: &mut Rng, depth: usize, max_depth: usize, counter: &mut usize) -> Vec<Node> {
+    let n = if depth == 0 { 1 + rng.usize_below(3) } else { rng.usize_below(3) };
+    let mut out = vec![];
+    for _ in 0..n {
+        *counter += 1;
+        let name = format!("a{}", *counter);
+        let bucket = depth + 1 < max_depth && rng.chance(if depth == 0 { 7 } else { 5 }, 10);
+        if bucket {
+            let agg = gen_bucket(rng, depth);
+            let subs = gen_nodes(rng, depth + 1, max_depth, counter);
+            out.push(Node { name, agg, subs });
+        } else if depth + 1 == max_depth || rng.chance(7, 10) {
+            out.push(Node { name, agg: gen_metric(rng), subs: vec![] });
+        } else {
+            out.push(Node { name, agg: gen_bucket(rng, depth), subs: vec![] });
+        }
+    }
+    out
+}
+
+/// false when the request uses something the Lean model does not cover
+pub fn lean_modelled(nodes: &[Node]) -> bool {
+    nodes.iter().all(|n| !matches!(&n.agg, Agg::Terms { field, mdc: Some(0), .. } if field.is_str()) && lean_modelled(&n.subs))
+}
+
+pub fn depth_of(nodes: &[Node]) -> usize {
+    nodes.iter().map(|n| 1 + depth_of(&n.subs)).max().unwrap_or(0)
+}
+pub fn has_bucket(nodes: &[Node]) -> bool {
+    nodes.iter().any(|n| !matches!(n.agg, Agg::Metric { .. }))
+}
+
+/// random partition of `0..n` into `k` parts (parts may be empty)
+pub fn gen_partition(rng: &mut Rng, n: usize, k: usize, contiguous: bool) -> Vec<Vec<usize>> {
+    let mut parts = vec![vec![]; k];
+    if contiguous {
+        let mut cuts: Vec<usize> = (0..k - 1).map(|_| rng.usize_below(n + 1)).collect();
+        cuts.sort();
+        let mut p = 0;
+        for i in 0..n { while p < k - 1 && i >= cuts[p] { p += 1; } parts[p].push(i); }
+    } else {
+        for i in 0..n { parts[rng.usize_below(k)].push(i); }
+    }
+    parts
+}
 
 pub fn run(ctx: &mut Ctx) {
-    ctx.report.notes.push("C14: harness not built yet".into());
+    runner::run(ctx);
 }
